@@ -121,7 +121,18 @@ Cyr == "жжжжжжжжжжжжжжжжжжжжжжжжжжжжжжжжжжжж
 NonAsciiXsd == [name |-> "nonascii.xsd", kind |-> "xsd", tns |-> "Urich", xmlns |-> << <<"t", "Urich">> >>,
                 items |-> [i \in 1..8 |-> [k |-> "rawxml", xml |-> "  <xs:simpleType name=\"" \o Pad[i] \o Cyr \o "\"><xs:restriction><xs:simpleType><xs:restriction base=\"xs:string\"/></xs:simpleType></xs:restriction></xs:simpleType>"]]
                           \o [i \in 1..8 |-> [k |-> "rawxml", xml |-> "  <xs:complexType name=\"T" \o ToString(i) \o "\"><xs:sequence><xs:element type=\"xs:string\" id=\"" \o Pad[i] \o Cyr \o "\"/></xs:sequence></xs:complexType>"]]]
+\* cyclic definitions through the reference kinds that are not types: model groups and attribute groups that refer to
+\* themselves or to each other (invalid XSD; whoever inlines a group must not follow the cycle for ever - seed C13-f)
+RawItem(x) == [k |-> "rawxml", xml |-> x]
+GroupCycleXsd == [name |-> "groups.xsd", kind |-> "xsd", tns |-> "Urich", xmlns |-> << <<"t", "Urich">> >>,
+                  items |-> << RawItem("  <xs:group name=\"SelfGroup\"><xs:sequence><xs:element name=\"a\" type=\"xs:string\"/><xs:group ref=\"t:SelfGroup\" minOccurs=\"0\"/></xs:sequence></xs:group>"),
+                               RawItem("  <xs:group name=\"PingGroup\"><xs:sequence><xs:group ref=\"t:PongGroup\"/></xs:sequence></xs:group>"),
+                               RawItem("  <xs:group name=\"PongGroup\"><xs:choice><xs:group ref=\"t:PingGroup\"/><xs:element name=\"b\" type=\"xs:int\"/></xs:choice></xs:group>"),
+                               RawItem("  <xs:attributeGroup name=\"SelfAttrs\"><xs:attribute name=\"k\" type=\"xs:string\"/><xs:attributeGroup ref=\"t:SelfAttrs\"/></xs:attributeGroup>"),
+                               RawItem("  <xs:complexType name=\"UsesGroups\"><xs:sequence><xs:group ref=\"t:SelfGroup\"/><xs:group ref=\"t:PingGroup\" minOccurs=\"0\"/></xs:sequence><xs:attributeGroup ref=\"t:SelfAttrs\"/></xs:complexType>"),
+                               RawItem("  <xs:complexType name=\"ExtendsUser\"><xs:complexContent><xs:extension base=\"t:UsesGroups\"><xs:group ref=\"t:PongGroup\"/></xs:extension></xs:complexContent></xs:complexType>") >>]
 Bases == << [label |-> "nonascii-errors", start |-> "nonascii.xsd", files |-> <<NonAsciiXsd>>, mutable |-> FALSE, feat |-> {}],
+            [label |-> "group-cycles", start |-> "groups.xsd", files |-> <<GroupCycleXsd>>, mutable |-> FALSE, feat |-> {"self_reference"}],
             [label |-> "name-clash", start |-> "clash.xsd", files |-> <<ClashXsd>>, mutable |-> TRUE, feat |-> {}],
             [label |-> "ext-chain", start |-> "chain.xsd", files |-> <<ExtChainXsd(ChainN)>>, mutable |-> FALSE, feat |-> {"ref_ladder"}],
             [label |-> "rich-xsd", start |-> "rich.xsd", files |-> <<RichXsd, OtherXsd>>, mutable |-> TRUE, feat |-> {}],
